@@ -431,6 +431,7 @@ func hxShort(b []byte) string {
 
 func (h *harness) runConc(seed uint64, cases, nops int) {
 	h.runCloseRaces(seed)
+	h.memLockCase(fmt.Sprintf("conc-%d-memlock", seed))
 	for i := 0; i < 2; i++ {
 		h.recoverWithWorkerCase(fmt.Sprintf("conc-%d-recoverworker%d", seed, i), seed+uint64(i))
 	}
@@ -508,4 +509,57 @@ func (h *harness) recoverWithWorkerCase(name string, seed uint64) {
 		h.emit("concfail case=%s %d goroutine(s) of the database still running after Close", name, n-before)
 	}
 	h.emit("concsum case=%s variant=recover-with-worker checks=%d", name, checks)
+}
+
+// memLockCase (C13 on fs.Mem): openers spin on the lock while the holder releases it; at no time may
+// two of them hold it.
+func (h *harness) memLockCase(name string) {
+	h.emit("case %s", name)
+	defer h.emit("end")
+	checks := 0
+	path := "memlock-" + name + "/lock"
+	for round := 0; round < 200; round++ {
+		lk, _, err := fs.Mem.CreateLockFile(path, 0640)
+		if err != nil {
+			h.emit("concfail case=%s fs.Mem: the lock of an unused directory is not available: %s", name, errStr(err))
+			return
+		}
+		got := make(chan fs.LockFile, 8)
+		stop := make(chan struct{})
+		var wg sync.WaitGroup
+		for i := 0; i < 4; i++ {
+			wg.Add(1)
+			go func() {
+				defer wg.Done()
+				for {
+					select {
+					case <-stop:
+						return
+					default:
+					}
+					if l, _, err := fs.Mem.CreateLockFile(path, 0640); err == nil {
+						got <- l
+						return
+					}
+				}
+			}()
+		}
+		if err := lk.Unlock(); err != nil {
+			h.emit("concfail case=%s fs.Mem: Unlock of the holder: %s", name, errStr(err))
+		}
+		first := <-got
+		_, _, err2 := fs.Mem.CreateLockFile(path, 0640)
+		close(stop)
+		wg.Wait()
+		if err2 == nil || len(got) > 0 {
+			h.emit("concfail case=%s fs.Mem: two holders of one lock at the same time (round %d): an opener took over an entry that was being removed", name, round)
+			return
+		}
+		checks++
+		if err := first.Unlock(); err != nil {
+			h.emit("concfail case=%s fs.Mem: Unlock of the second holder: %s", name, errStr(err))
+			return
+		}
+	}
+	h.emit("concsum case=%s variant=memlock checks=%d", name, checks)
 }
